@@ -33,6 +33,7 @@ CANARIES = {
         ("boolean-socket-option", "stix2/v21/observables.py", "text", ["if isinstance(val, bool) or not isinstance(val, int):", "if not isinstance(val, int):"], "C02.constraints"),
         ("hash-regex-unicode-casefold", "stix2/hashes.py", "text", ["re.compile(re_str, re.I | re.A)", "re.compile(re_str, re.I)"], "C02.hash-regex"),
         ("nan-passes-range-check", "stix2/properties.py", "text", ["        if not math.isfinite(value):\n", "        if False:\n"], "C02.clean-contract"),
+        ("empty-body-taken-for-absent", "stix2/v21/observables.py", "text", ["if self.get('is_multipart') is True and 'body' in self:", "if self.get('is_multipart') is True and self.get('body'):"], "C02.constraints"),
     ],
     "C03": [
         ("revoked-default-flipped", "stix2/v21/sdo.py", "bool-flip", ["Indicator", "False -> True", "lambda: False"], "C03.table"),
